@@ -1,6 +1,6 @@
 """C01 -- matrix product equals the mathematical product (matmul, %, matvec, vecmat, outer, inner)."""
 import random
-from ..core import Case, TU, chunk, std_configs, width
+from ..core import Case, TU, chunk, std_configs, width, Cfg
 
 ID = 'C01'
 TYPES = [('float', 'f32'), ('double', 'f64'), ('int', 'i32'), ('long', 'i64'),
@@ -139,6 +139,12 @@ def generate(seed, tier):
     rnd.shuffle(allc)
     tus = [TU('c01_%03d' % i, ch, headers=['vp_c01.h']) for i, ch in enumerate(chunk(allc, 24))]
     cfgs = std_configs(tier)
+    if not quick:
+        # the documented register-block tuning macros select different hand-unrolled kernels
+        for m in ('FASTOR_MATMUL_OUTER_BLOCK_SIZE=1', 'FASTOR_MATMUL_OUTER_BLOCK_SIZE=3', 'FASTOR_MATMUL_INNER_BLOCK_SIZE=1', 'FASTOR_MATMUL_INNER_BLOCK_SIZE=3',
+                  'FASTOR_MATMUL_INNER_BLOCK_SIZE=4', 'FASTOR_MATMUL_INNER_BLOCK_SIZE=5'):
+            for isa in ('sse2', 'avx2', 'avx512'):
+                cfgs.append(Cfg(isa, '14', 'O2', macros=(m,), only_tus='c01_00*'))
     return tus, cfgs
 
 
